@@ -547,8 +547,10 @@ func (m *Monitors) checkTasks(prev *vh.Snapshot, bi *BatchInfo, next *vh.Snapsho
 			for _, c := range cmds {
 				if c.cmd.Kind == t_aio.HeartbeatTasks && t0.ProcessId != nil && c.cmd.HeartbeatTasks.ProcessId == *t0.ProcessId && t1.ExpiresAt == c.cmd.HeartbeatTasks.Time+t0.Ttl {
 					ok = true
-					// a heartbeat that arrives before the lease has run out extends the guaranteed lease
-					if h := c.cmd.HeartbeatTasks.Time; h < m.guar[id] {
+					// a heartbeat that takes effect before the lease has run out extends the guaranteed lease. "Takes
+					// effect" is its commit: a heartbeat that was computed in time but sat in the store's queue until
+					// the lease had lapsed (possible only when transactions overtake each other) is a late one
+					if h := c.cmd.HeartbeatTasks.Time; h < m.guar[id] && t < m.guar[id] {
 						m.guar[id] = h + t0.Ttl
 						m.region("timely-heartbeat")
 					} else {
